@@ -121,13 +121,30 @@ Proof.
   cbn [app ued]. rewrite Eb. rewrite IH. reflexivity.
 Qed.
 
+Lemma ascii_encode a : forallb is_ascii a = true -> utf8_encode a = Ok a.
+Proof.
+  induction a as [|c a IH]; [reflexivity|]. cbn [forallb]. intro H.
+  apply andb_true_iff in H as [Hc Ha]. cbn [utf8_encode]. rewrite (IH Ha).
+  unfold utf8_enc1. unfold is_ascii in Hc. replace (c <? 0x80) with true by lia. reflexivity.
+Qed.
+
+Lemma mq_esc_ascii a : forallb is_ascii (mq_esc a) = forallb is_ascii a.
+Proof.
+  induction a as [|c a IH]; [reflexivity|]. rewrite mq_esc_cons, forallb_app, IH. cbn [forallb]. f_equal.
+  destruct (c =? BSL) eqn:Eb; [apply N.eqb_eq in Eb; subst; reflexivity|].
+  destruct (c =? DQ) eqn:Ed; [apply N.eqb_eq in Ed; subst; reflexivity|].
+  cbn [forallb]. apply andb_true_r.
+Qed.
+
 Lemma decode_quoted_mq named a :
   forallb scalar a = true -> decode_quoted named (mq_esc a) = Ok a.
 Proof.
   intro Hs. destruct (utf8_roundtrip_scalar a Hs) as [b [He Hd]].
   unfold decode_quoted, unicode_escape_decode.
   rewrite (utf8_encode_mq a b He). cbn [bind]. rewrite ued_mq. cbn [bind].
-  rewrite (latin1_encode_bytes b (utf8_encode_bytes a b He)). rewrite Hd. reflexivity.
+  rewrite mq_esc_ascii. destruct (forallb is_ascii a) eqn:Ea; cbn [negb].
+  - rewrite (ascii_encode a Ea) in He. apply Ok_inj in He. subst b. reflexivity.
+  - rewrite (latin1_encode_bytes b (utf8_encode_bytes a b He)). rewrite Hd. reflexivity.
 Qed.
 
 Lemma last_snoc (l : str) x d : last (l ++ [x]) d = x.
@@ -197,7 +214,7 @@ Example quote_roundtrip_example named :
   /\ tokenize named (Cfg true (Some (91, 93)) true [DQ; 39]) (join [SP] (map minimal_quote args)) = Ok (map Leaf args).
 Proof. split; [repeat constructor|vm_compute; reflexivity]. Qed.
 
-(* ---- the dqrepr law is refuted on the pinned tree (finding F15) ---- *)
+(* ---- the former witness of finding C13.F15 ---- *)
 Definition witness_dqrepr : str := [0xC2; 0x80].
 
 (* a quote body that never closes the quote: generic lexer lemma *)
@@ -233,31 +250,7 @@ Proof.
   destruct (brk t) as [[l r']|]; rewrite ?Hl, H; reflexivity.
 Qed.
 
-Lemma dqrepr_refuted named c :
-  mem DQ (c_quotes c) = true ->
-  dq_dom witness_dqrepr = false /\
-  tokenize named c (join [SP] (map dqrepr [witness_dqrepr])) <> Ok (map Leaf [witness_dqrepr]).
-Proof.
-  intro Hq. split; [vm_compute; reflexivity|].
-  (* the text is "\xc2\x80": one quoted token whatever the configuration *)
-  assert (E : tokenize named c (join [SP] (map dqrepr [witness_dqrepr])) = Ok [Leaf [0x80]]).
-  { unfold tokenize, tokenizer_tokenize, lex_all.
-    assert (Hq' : mem DQ (quotes (tk_of c)) = true) by (unfold tk_of; destruct (c_nested c); exact Hq).
-    change (join [SP] (map dqrepr [witness_dqrepr])) with (DQ :: [BSL; 120; 99; 50; BSL; 120; 56; 48] ++ DQ :: []).
-    rewrite lex_open_quote by exact Hq'.
-    rewrite lex_quote_gen by (vm_compute; reflexivity).
-    cbn [lex emit fst snd length rev app].
-    erewrite top_single_quoted; [reflexivity|reflexivity|].
-    unfold handle_token. cbn [last]. rewrite N.eqb_refl, Hq'. cbn [andb]. vm_compute. reflexivity. }
-  rewrite E. intro H. apply Ok_inj in H. vm_compute in H. discriminate.
-Qed.
-
-Lemma dqrepr_roundtrip_refuted named c :
-  mem DQ (c_quotes c) = true ->
-  exists args, forallb dq_dom args = false /\
-               tokenize named c (join [SP] (map dqrepr args)) <> Ok (map Leaf args).
-Proof.
-  intro Hq. exists [witness_dqrepr].
-  destruct (dqrepr_refuted named c Hq) as [Hd Hn]. split; [|exact Hn].
-  cbn [forallb]. rewrite Hd. reflexivity.
-Qed.
+(* the witness of the repaired finding C13.F15 now round-trips (was: Ok [Leaf [0x80]]) *)
+Example dqrepr_F15_witness named :
+  tokenize named (Cfg true (Some (91, 93)) false [DQ]) (dqrepr witness_dqrepr) = Ok [Leaf witness_dqrepr].
+Proof. vm_compute. reflexivity. Qed.
